@@ -28,6 +28,8 @@ C08-c hooks wired: both fat32 constructors install WriteBootSectorFn and AfterWr
 C08-d release (= C01-a): clusters of removed/replaced/truncated files do not stay marked used.
 C08-e layout agreement of the boot-sector/BPB/FSInfo encoders and decoders (byte-layout extraction, see codec rules).
 C08-f terminator discipline: on every success path of the allocator a chain link written with SetCluster is followed by an end-of-chain mark; freed clusters receive UnusedMarker().
+C08-g sector-unit discipline in the FAT packages: a sector number or sector count taken from the BPB (reserved sectors, sectors per FAT, FSInfo sector, backup boot sector, root directory sectors) becomes a byte offset only through the volume's own sector size: the scaling factor never has the literal 512/4096 among the roots of its value (directly or through a helper that falls back to a default), because the property quantifies over 512- and 4096-byte sectors.
+C08-h the FAT encoders (Bytes() of the three tables) return a buffer allocated by that call (or one they clear first): entries that are zero are skipped by the 12-bit encoder, so a buffer kept between calls would keep the links of released clusters on disk.
 Not covered: geometry formulas (sectors-per-FAT rounding, FAT32 maxCluster overrun), chain well-formedness under arbitrary histories.`)
 }
 
@@ -691,6 +693,10 @@ func runC08(w *World, r *Report) {
 	c01Release(w, r, "C08-d")
 	c08Terminators(w, r)
 	runCodecFamily(w, r, "C08-e", codecPairsC08)
+	c08SectorUnits(w, r)
+	c08FreshTableBytes(w, r)
+	r.Floor("C08-g", r.countRule("C08-g"), 6)
+	r.Floor("C08-h", r.countRule("C08-h"), 3)
 	r.Floor("C08-e", r.countRule("C08-e"), 7)
 	r.Floor("C08-a", r.countRule("C08-a"), 3)
 	r.Floor("C08-b", r.countRule("C08-b"), 1)
@@ -1127,7 +1133,6 @@ func c01ScanStart(w *World, r *Report) {
 	}
 }
 
-
 // c01DirRewrite (C01-e): writeDirectoryEntries writes every cluster of the directory's chain: no iteration of its
 // cluster loop ends without a device write. Clusters the shorter listing no longer reaches must be overwritten (with
 // the zero padding of the serialisation), or their old entries are listed again.
@@ -1146,4 +1151,112 @@ func c01DirRewrite(w *World, r *Report) {
 	bad, why := loopWritesEveryBlock(wd, in[0])
 	r.Check(!bad, "C01-e", fnName(wd), "directory rewritten in all of its clusters", w.relFile(in[0].Pos()), "every iteration of the cluster loop writes its cluster",
 		why+"an iteration of the loop over the directory's clusters can end (or the loop can be left) without writing the cluster: clusters beyond the shorter listing keep their old entries, which are listed again")
+}
+
+// c08SectorUnits (C08-g): BPB sector numbers are scaled to bytes by the volume's sector size only.
+func c08SectorUnits(w *World, r *Report) {
+	// the FAT packages' own default (SectorSize512) is a literal too when it is what a sector number is scaled by
+	sectorFields := map[string]bool{"fsInformationSector": true, "backupBootSector": true, "ReservedSectors": true, "SectorsPerFat": true, "sectorsPerFat": true, "reservedSectors": true}
+	for _, fn := range w.ModFns {
+		if !inFatPkg(w, fn) {
+			continue
+		}
+		k := 0
+		allInstrs(fn, func(ins ssa.Instruction) {
+			bin, ok := ins.(*ssa.BinOp)
+			if !ok || bin.Op != token.MUL {
+				return
+			}
+			for side := 0; side < 2; side++ {
+				a, f := bin.X, bin.Y
+				if side == 1 {
+					a, f = f, a
+				}
+				// a: a plain BPB sector field (looking through conversions), f: the factor
+				ld := stripConv(a)
+				name := ""
+				switch x := ld.(type) {
+				case *ssa.UnOp:
+					if fa, ok := x.X.(*ssa.FieldAddr); ok && x.Op == token.MUL {
+						if _, fld, _, ok := fieldOfAddr(fa); ok && sectorFields[fld.Name()] {
+							name = fld.Name()
+						}
+					}
+				case *ssa.Field:
+					if _, fld, _, ok := fieldOfAddr(x); ok && sectorFields[fld.Name()] {
+						name = fld.Name()
+					}
+				}
+				if name == "" {
+					continue
+				}
+				// the factor must be a sector size: skip multiplications by small counts (fatCount, 2)
+				pf := w.prov(f, provOpts{followCalls: true})
+				isSize := false
+				literal := int64(0)
+				for _, rt := range pf.Roots {
+					if rt.Kind == RField && (rt.Field.Name() == "BytesPerSector" || rt.Field.Name() == "bytesPerSector") {
+						isSize = true
+					}
+					if rt.Kind == RParam && rt.Param != nil && strings.Contains(strings.ToLower(rt.Param.Name()), "blocksize") {
+						isSize = true
+					}
+					if rt.Kind == RConst {
+						if c, ok := constInt(rt.Val); ok && (c == 512 || c == 4096) {
+							literal = c
+							isSize = true
+						}
+					}
+				}
+				if !isSize {
+					continue
+				}
+				k++
+				r.Check(literal == 0, "C08-g", fnName(fn), fmt.Sprintf("sector number (%s) scaled by the volume's sector size #%d", name, k), w.relFile(bin.Pos()), "",
+					fmt.Sprintf("the BPB sector number %s is turned into a byte offset with a factor that can be the literal %d (directly or through a helper that falls back to it) instead of the volume's own sector size: on a volume with the other supported sector size the structure is written to or looked for at the wrong place", name, literal))
+				return
+			}
+		})
+	}
+}
+
+// c08FreshTableBytes (C08-h): Bytes() of each FAT table type returns a buffer made in that call, or clears it first.
+func c08FreshTableBytes(w *World, r *Report) {
+	for _, pkg := range fatPkgs {
+		sp := w.Pkg(pkg)
+		for _, m := range sp.Members {
+			t, ok := m.(*ssa.Type)
+			if !ok {
+				continue
+			}
+			n, ok := t.Type().(*types.Named)
+			if !ok {
+				continue
+			}
+			fn := w.MethodOf(n, "Bytes")
+			if fn == nil || fn.Blocks == nil || w.MethodOf(n, "SetCluster") == nil {
+				continue
+			}
+			fresh, cleared := true, false
+			for _, ret := range returnsOf(fn) {
+				if len(ret.Results) != 1 {
+					continue
+				}
+				for _, rt := range w.prov(ret.Results[0], provOpts{}).Roots {
+					if rt.Kind != RAlloc {
+						fresh = false
+					}
+				}
+			}
+			for _, c := range calls(fn, false, func(c ssa.CallInstruction) bool {
+				bi, ok := c.Common().Value.(*ssa.Builtin)
+				return ok && bi.Name() == "clear"
+			}) {
+				_ = c
+				cleared = true
+			}
+			r.Check(fresh || cleared, "C08-h", fnName(fn), "FAT encoding starts from a zeroed buffer", w.relFile(fn.Pos()), "",
+				"Bytes() returns a buffer that is not allocated by the call (and is not cleared first): entries the encoder skips because they are zero keep the bytes of an earlier encoding, so the links of released clusters stay on disk in both FAT copies")
+		}
+	}
 }
